@@ -5,24 +5,24 @@ Import ListNotations.
 
 (** ** progress *)
 
-Lemma g_reserve_ok cf s : Inv cf s -> exists s', g_reserve cf s = Ok s'.
+Lemma g_reserve_ok cf s {lk} : InvL cf s lk -> exists s', g_reserve cf s = Ok s'.
 Proof.
   intro I. unfold g_reserve. destruct (st_g s); eauto.
   unfold res_try_reserve, ctl_capacity.
   destruct (length (cslots (st_ctl s)) =? 0) eqn:Ez; [cbn; eauto|].
-  apply Nat.eqb_neq in Ez. rewrite (i_clen _ _ I) in Ez.
-  unfold ctl_try_reserve. destruct (i_free _ _ I ltac:(lia)) as (fl & Hch & _ & _).
+  apply Nat.eqb_neq in Ez. rewrite (i_clen _ _ _ I) in Ez.
+  unfold ctl_try_reserve. destruct (i_free _ _ _ I ltac:(lia)) as (fl & Hch & _ & _).
   destruct fl as [|h r]; cbn [chain] in Hch.
   - rewrite Hch. cbn. eauto.
   - destruct Hch as (-> & Hh & _). rewrite (nth_error_lt _ _ dC) by auto. cbn. eauto.
 Qed.
 
-Lemma owned_length s :
-  length (owned s) = length (aorder (st_ar s)) + length (st_newq s) + length (gres (st_g s)).
+Lemma owned_length s lk :
+  length (owned s lk) = length (aorder (st_ar s)) + length (st_newq s) + length (gres (st_g s)) + length lk.
 Proof. unfold owned, nq_idx. rewrite !app_length, map_length. lia. Qed.
 
 (** the new-queue never overflows: its entries own distinct non-free slots, one more is reserved *)
-Lemma g_push_ok cf s : Inv cf s -> exists s', g_push cf s = Ok s'.
+Lemma g_push_ok cf s {lk} : InvL cf s lk -> exists s', g_push cf s = Ok s'.
 Proof.
   intro I. unfold g_push. destruct (st_g s) eqn:Eg; eauto.
   pose proof (owned_bound _ _ I) as Hb. rewrite owned_length, Eg in Hb. cbn [gres length] in Hb.
@@ -41,8 +41,8 @@ Definition removed_state (cf : cfg) (s : state) (k : key) (p : nat) (rest : list
        (st_next s) (st_created s) (S (st_removed s)) (st_destroyed s) (st_callbacks s) (st_log s)
        (Some p).
 
-Lemma a_remove_spec cf s k rest :
-  Inv cf s -> st_a s = ARemoving (k :: rest) -> st_inflight s = None ->
+Lemma a_remove_spec cf s k rest {lk} :
+  InvL cf s lk -> st_a s = ARemoving (k :: rest) -> st_inflight s = None ->
   kidx k < cap cf /\
   exists p, present (st_ar s) k /\ adata (asl s (kidx k)) = Some p /\
             a_remove cf s = Ok (if selfref cf && ring_is_full (unused_cap cf) (st_unused s)
@@ -51,15 +51,15 @@ Lemma a_remove_spec cf s k rest :
                                      else set_a s (ARemoving rest)).
 Proof.
   intros I Ea Ef.
-  pose proof (i_cur _ _ I _ Ea) as [NDcur Hcur].
+  pose proof (i_cur _ _ _ I _ Ea) as [NDcur Hcur].
   assert (Hpk : present (st_ar s) k) by (apply Hcur; now left).
   pose proof Hpk as [Hocc Hgen].
-  assert (Hown : In (kidx k) (owned s)) by (unfold owned; rewrite in_app_iff; now left).
-  pose proof Hown as Hnf. apply (i_nonfree _ _ I) in Hnf as [Hidx Hnf].
-  pose proof (i_clen _ _ I) as Hcl. pose proof (i_alen _ _ I) as Hal.
+  assert (Hown : In (kidx k) (owned s lk)) by (unfold owned; rewrite in_app_iff; now left).
+  pose proof Hown as Hnf. apply (i_nonfree _ _ _ I) in Hnf as [Hidx Hnf].
+  pose proof (i_clen _ _ _ I) as Hcl. pose proof (i_alen _ _ _ I) as Hal.
   split; auto.
   destruct (adata (asl s (kidx k))) as [p|] eqn:Ed.
-  2:{ exfalso. apply (i_occ _ _ I) in Hocc; auto. }
+  2:{ exfalso. apply (i_occ _ _ _ I) in Hocc; auto. }
   exists p. split; auto. split; auto.
   unfold a_remove. rewrite Ea, Ef.
   destruct (selfref cf && ring_is_full (unused_cap cf) (st_unused s)); auto.
@@ -73,7 +73,7 @@ Proof.
   cbn [obind]. unfold removed_state. now rewrite Hgen.
 Qed.
 
-Lemma a_remove_ok cf s : Inv cf s -> exists s', a_remove cf s = Ok s'.
+Lemma a_remove_ok cf s {lk} : InvL cf s lk -> exists s', a_remove cf s = Ok s'.
 Proof.
   intro I. destruct (st_inflight s) eqn:Ef.
   { unfold a_remove. rewrite Ef. destruct (st_a s) as [|[|]|]; eauto. }
@@ -108,32 +108,32 @@ Definition added_state (cf : cfg) (s : state) (k : key) (p : nat) (rest : list (
        (st_next s) (st_created s) (st_removed s) (st_destroyed s) (st_callbacks s) (st_log s)
        (st_inflight s).
 
-Lemma a_add_spec cf s k p rest :
-  Inv cf s -> st_a s = AAdding -> st_newq s = (k, p) :: rest ->
+Lemma a_add_spec cf s k p rest {lk} :
+  InvL cf s lk -> st_a s = AAdding -> st_newq s = (k, p) :: rest ->
   kidx k < cap cf /\ kgen k = agen (asl s (kidx k)) /\ adata (asl s (kidx k)) = None /\
   a_add cf s = Ok (added_state cf s k p rest).
 Proof.
   intros I Ea Eq.
-  pose proof (i_alen _ _ I) as Hal.
-  pose proof (i_part _ _ I) as Hpart. unfold owned in Hpart. rewrite Eq in Hpart.
+  pose proof (i_alen _ _ _ I) as Hal.
+  pose proof (i_part _ _ _ I) as Hpart. unfold owned in Hpart. rewrite Eq in Hpart.
   cbn [nq_idx map fst] in Hpart.
-  assert (Hown : In (kidx k) (owned s)).
+  assert (Hown : In (kidx k) (owned s lk)).
   { unfold owned. rewrite Eq. cbn [nq_idx map fst]. rewrite !in_app_iff. right. left. now left. }
-  pose proof Hown as Hnf. apply (i_nonfree _ _ I) in Hnf as [Hidx Hnf].
+  pose proof Hown as Hnf. apply (i_nonfree _ _ _ I) in Hnf as [Hidx Hnf].
   assert (Hgen : kgen k = agen (asl s (kidx k))).
-  { rewrite (i_gen _ _ I) by auto. apply (i_nqgen _ _ I k p). rewrite Eq. now left. }
+  { rewrite (i_gen _ _ _ I) by auto. apply (i_nqgen _ _ _ I k p). rewrite Eq. now left. }
   assert (Hnocc : ~ In (kidx k) (aorder (st_ar s))).
   { intro Hin. apply NoDup_app_iff in Hpart as (_ & _ & Hd). apply (Hd _ Hin). now left. }
   assert (Hd : adata (asl s (kidx k)) = None).
   { destruct (adata (asl s (kidx k))) eqn:E; auto. exfalso. apply Hnocc.
-    apply (i_occ _ _ I); auto. congruence. }
+    apply (i_occ _ _ _ I); auto. congruence. }
   repeat split; auto.
   unfold a_add. rewrite Ea, Eq.
   unfold arena_insert_with_key. rewrite (nth_error_lt _ _ dA) by lia.
   rewrite <- Hgen, Nat.eqb_refl, Hd. cbn [negb]. unfold added_state. now rewrite Hgen.
 Qed.
 
-Lemma a_add_ok cf s : Inv cf s -> exists s', a_add cf s = Ok s'.
+Lemma a_add_ok cf s {lk} : InvL cf s lk -> exists s', a_add cf s = Ok s'.
 Proof.
   intro I. destruct (st_a s) eqn:Ea; try (unfold a_add; rewrite Ea; eauto; fail).
   destruct (st_newq s) as [|[k p] rest] eqn:Eq.
@@ -143,29 +143,29 @@ Qed.
 
 (** under the structural invariant alone, the only step that could fail is the push into the
     unused-ring; the queue bound [QInv] excludes that too ([step_ok]) *)
-Theorem step_cases cf l s :
-  Inv cf s ->
-  (exists s', step cf l s = Ok s' /\ Inv cf s') \/ (l = A_push /\ step cf l s = Panic QueueFull).
+Theorem step_cases cf l s {lk} :
+  InvL cf s lk ->
+  (exists s', step cf l s = Ok s' /\ InvL cf s' lk) \/ (l = A_push /\ step cf l s = Panic QueueFull).
 Proof.
   intro I.
   assert (H : (exists s', step cf l s = Ok s') \/ (l = A_push /\ step cf l s = Panic QueueFull)).
   { destruct l; cbn [step].
-    - left. now apply g_reserve_ok.
+    - left. eapply g_reserve_ok; eauto.
     - left. unfold g_drain_one. destruct (st_g s), (st_unused s); eauto.
     - left. unfold g_drain_done. destruct (st_g s), (st_unused s); eauto.
-    - left. now apply g_push_ok.
+    - left. eapply g_push_ok; eauto.
     - left. unfold g_mark. destruct ((p <? st_next s) && negb (is_marked s p)); eauto.
     - left. unfold a_start. destruct (st_a s); eauto.
-    - left. now apply a_remove_ok.
+    - left. eapply a_remove_ok; eauto.
     - destruct (a_push_cases cf s); auto.
-    - left. now apply a_add_ok.
+    - left. eapply a_add_ok; eauto.
     - left. unfold g_fail. destruct (st_g s); eauto. }
   destruct H as [[s' H]|H]; auto. left. exists s'. split; auto. eapply inv_step; eauto.
 Qed.
 
 (** ** the queue bound is preserved by every step *)
-Lemma qinv_step cf l s s' :
-  Inv cf s -> QInv cf s -> step cf l s = Ok s' -> QInv cf s'.
+Lemma qinv_step cf l s s' {lk} :
+  InvL cf s lk -> QInv cf s -> step cf l s = Ok s' -> QInv cf s'.
 Proof.
   intros I Q H. unfold QInv in *. destruct l; cbn [step] in H.
   - unfold g_reserve in H. destruct (st_g s) eqn:Eg; try (inversion H; subst; rewrite Eg; exact Q).
@@ -191,7 +191,7 @@ Proof.
     inversion H; subst; clear H.
     destruct (selfref cf && ring_is_full (unused_cap cf) (st_unused s)); [cbn; now rewrite Ef|].
     destruct (is_marked s p); [|cbn; now rewrite Ef].
-    pose proof (i_part _ _ I) as Hpart. unfold owned in Hpart.
+    pose proof (i_part _ _ _ I) as Hpart. unfold owned in Hpart.
     apply NoDup_app_iff in Hpart as (NDocc & _ & _).
     pose proof (remove_length_NoDup _ _ NDocc Hocc) as Hlen.
     cbn in *. lia.
@@ -211,16 +211,20 @@ Qed.
 Lemma qinv_init cf : QInv cf (init cf).
 Proof. unfold QInv, init; cbn. lia. Qed.
 
-Theorem step_ok cf l s :
-  Inv cf s -> QInv cf s -> exists s', step cf l s = Ok s' /\ Inv cf s' /\ QInv cf s'.
+Theorem step_ok cf l s {lk} :
+  InvL cf s lk -> QInv cf s -> exists s', step cf l s = Ok s' /\ InvL cf s' lk /\ QInv cf s'.
 Proof.
   intros I Q. destruct (step_cases cf l s I) as [(s' & H & I')|[-> H]].
-  - exists s'. split; [auto|]. split; [auto|]. apply (qinv_step cf l s s'); auto.
+  - exists s'. split; [auto|]. split; [auto|]. eapply (qinv_step cf l s s'); eauto.
   - exfalso. cbn [step] in H. destruct (a_push_ok cf s Q) as [s' E]. congruence.
 Qed.
 
+Lemma step_ok_base cf l s :
+  Inv cf s -> QInv cf s -> exists s', step cf l s = Ok s' /\ Inv cf s' /\ QInv cf s'.
+Proof. apply step_ok. Qed.
+
 (** ** runs *)
-Lemma run_inv cf sched s s' : Inv cf s -> run cf sched s = Ok s' -> Inv cf s'.
+Lemma run_inv cf sched s s' {lk} : InvL cf s lk -> run cf sched s = Ok s' -> InvL cf s' lk.
 Proof.
   revert s. induction sched as [|l rest IH]; intros s I H; cbn [run] in H.
   - now inversion H; subst.
@@ -228,9 +232,9 @@ Proof.
     apply (IH s1); [eapply inv_step; eauto|exact H].
 Qed.
 
-Theorem run_ok cf sched s :
-  Inv cf s -> QInv cf s ->
-  exists s', run cf sched s = Ok s' /\ Inv cf s' /\ QInv cf s'.
+Theorem run_ok cf sched s {lk} :
+  InvL cf s lk -> QInv cf s ->
+  exists s', run cf sched s = Ok s' /\ InvL cf s' lk /\ QInv cf s'.
 Proof.
   revert s. induction sched as [|l rest IH]; intros s I Q; cbn [run].
   - eauto.
@@ -238,8 +242,8 @@ Proof.
     rewrite E. cbn [obind]. apply IH; auto.
 Qed.
 
-Lemma run_qinv cf sched s s' :
-  Inv cf s -> QInv cf s -> run cf sched s = Ok s' -> QInv cf s'.
+Lemma run_qinv cf sched s s' {lk} :
+  InvL cf s lk -> QInv cf s -> run cf sched s = Ok s' -> QInv cf s'.
 Proof.
   intros I Q H. destruct (run_ok cf sched s I Q) as (s2 & E & _ & Q2). congruence.
 Qed.
@@ -256,9 +260,9 @@ Proof.
 Qed.
 
 (** a property preserved by every successful step from invariant states holds along every run *)
-Lemma run_preserves cf (P : state -> Prop) :
-  (forall l s s', Inv cf s -> P s -> step cf l s = Ok s' -> P s') ->
-  forall sched s s', Inv cf s -> P s -> run cf sched s = Ok s' -> P s'.
+Lemma run_preserves cf {lk} (P : state -> Prop) :
+  (forall l s s', InvL cf s lk -> P s -> step cf l s = Ok s' -> P s') ->
+  forall sched s s', InvL cf s lk -> P s -> run cf sched s = Ok s' -> P s'.
 Proof.
   intros Hstep sched. induction sched as [|l rest IH]; intros s s' I HP H; cbn [run] in H.
   - now inversion H; subst.
@@ -267,9 +271,9 @@ Proof.
 Qed.
 
 (** the same with the queue bound available *)
-Lemma run_preserves_q cf (P : state -> Prop) :
-  (forall l s s', Inv cf s -> QInv cf s -> P s -> step cf l s = Ok s' -> P s') ->
-  forall sched s s', Inv cf s -> QInv cf s -> P s -> run cf sched s = Ok s' -> P s'.
+Lemma run_preserves_q cf {lk} (P : state -> Prop) :
+  (forall l s s', InvL cf s lk -> QInv cf s -> P s -> step cf l s = Ok s' -> P s') ->
+  forall sched s s', InvL cf s lk -> QInv cf s -> P s -> run cf sched s = Ok s' -> P s'.
 Proof.
   intros Hstep sched. induction sched as [|l rest IH]; intros s s' I Q HP H; cbn [run] in H.
   - now inversion H; subst.
@@ -298,7 +302,7 @@ Proof.
   - now rewrite nth_upd_neq.
 Qed.
 
-Lemma step_mono cf l s s' : Inv cf s -> step cf l s = Ok s' -> mono s s'.
+Lemma step_mono cf l s s' {lk} : InvL cf s lk -> step cf l s = Ok s' -> mono s s'.
 Proof.
   intros I H. destruct l; cbn [step] in H.
   - unfold g_reserve in H. destruct (st_g s); try (inversion H; subst; apply mono_refl).
@@ -347,7 +351,7 @@ Proof.
   intro i. specialize (A1 i). specialize (B1 i). lia.
 Qed.
 
-Lemma run_mono cf sched s s' : Inv cf s -> run cf sched s = Ok s' -> mono s s'.
+Lemma run_mono cf sched s s' {lk} : InvL cf s lk -> run cf sched s = Ok s' -> mono s s'.
 Proof.
   revert s. induction sched as [|l rest IH]; intros s I H; cbn [run] in H.
   - inversion H; subst. apply mono_refl.
